@@ -10,6 +10,13 @@
    The limits (config.MaxPeers, config.MaxPeersPerIP) and the ban duration are fields of [cfg]:
    every theorem is proved for all values; the correspondence check passes the compiled-in values.
 
+   Connected(): the only mutable attribute of a peer object the handlers read.  [gone s] is the set
+   of pids whose peer object has been disconnected - by the outside world (event [Disc p]: remote
+   close, protocol error, ...) or by handleAddPeerMsg itself when it refuses the peer
+   (sp.Disconnect()).  handleDonePeerMsg does NOT touch the flag: in production peerDoneHandler
+   sends the Done only after WaitForDisconnect returned, i.e. the peer is already in [gone]
+   (predicate [proto]).  Since fix 1a05aed handleAddPeerMsg ignores a peer that is in [gone].
+
    Not modelled (constant on the reachable alphabet): the shutdown flag (0 while peerHandler
    runs), SplitHostPort failure (every peer that reached OnVersion has a host:port address), and
    the conjunct sp.VersionKnown() of handleDonePeerMsg (AddPeer is only called from OnVersion, which
@@ -50,10 +57,13 @@ Record st := mkSt {
   pers : list (Z * peer);       (* persistentPeers *)
   banned : list (Z * Z);        (* banned: host -> expiry *)
   groups : list (Z * Z);        (* outboundGroups *)
-  ccount : list (Z * Z)         (* connectionCount *)
+  ccount : list (Z * Z);        (* connectionCount *)
+  gone : list Z                 (* peer objects whose Connected() is false *)
 }.
 
-Definition init : st := mkSt [] [] [] [] [] [].
+Definition init : st := mkSt [] [] [] [] [] [] [].
+
+Definition zmem (k : Z) (l : list Z) : bool := existsb (Z.eqb k) l.
 
 Definition zlen {A} (l : list A) : Z := Z.of_nat (length l).
 
@@ -63,50 +73,59 @@ Definition total (s : st) : Z := zlen (inb s) + zlen (outb s) + zlen (pers s).
 Inductive ev :=
 | Add (p : peer) (now : Z)
 | Done (p : peer)
-| Ban (h : Z) (now : Z).
+| Ban (h : Z) (now : Z)
+| Disc (p : peer).              (* the peer's connection drops: p.Disconnect() / remote close *)
 
-Definition set_banned (s : st) b := mkSt (inb s) (outb s) (pers s) b (groups s) (ccount s).
+Definition set_banned (s : st) b := mkSt (inb s) (outb s) (pers s) b (groups s) (ccount s) (gone s).
+(* sp.Disconnect() *)
+Definition mark_gone (s : st) (k : Z) := mkSt (inb s) (outb s) (pers s) (banned s) (groups s) (ccount s) (k :: gone s).
+
+(* "Add the new peer": the map of its kind and the counters *)
+Definition insert (s1 : st) (p : peer) : st :=
+  let h := host p in
+  match pkind p with
+  | Inbound =>
+    mkSt (aset (inb s1) (pid p) p) (outb s1) (pers s1) (banned s1) (groups s1) (cincr (ccount s1) h) (gone s1)
+  | Persistent =>
+    mkSt (inb s1) (outb s1) (aset (pers s1) (pid p) p) (banned s1) (cincr (groups s1) (group p)) (ccount s1) (gone s1)
+  | Outbound =>
+    mkSt (inb s1) (aset (outb s1) (pid p) p) (pers s1) (banned s1) (cincr (groups s1) (group p)) (cincr (ccount s1) h) (gone s1)
+  end.
+
+(* the admission part of handleAddPeerMsg, after the ban check: the two limits (a refused peer is
+   disconnected), then insertion *)
+Definition admit_peer (c : cfg) (s1 : st) (p : peer) : st * bool :=
+  if cget (ccount s1) (host p) >=? max_per_ip c then (mark_gone s1 (pid p), false)
+  else if total s1 >=? max_peers c then (mark_gone s1 (pid p), false)
+  else (insert s1 p, true).
 
 (* handleAddPeerMsg: returns the new state and the decision *)
 Definition add_peer (c : cfg) (s : st) (p : peer) (now : Z) : st * bool :=
-  let h := host p in
-  let after_ban :=
+  if zmem (pid p) (gone s) then (s, false)            (* !sp.Connected(): ignored, nothing else happens *)
+  else
+    let h := host p in
     match aget (banned s) h with
-    | Some e => if now <? e then None else Some (set_banned s (adel (banned s) h))
-    | None => Some s
-    end in
-  match after_ban with
-  | None => (s, false)
-  | Some s1 =>
-    if cget (ccount s1) h >=? max_per_ip c then (s1, false)
-    else if total s1 >=? max_peers c then (s1, false)
-    else
-      match pkind p with
-      | Inbound =>
-        (mkSt (aset (inb s1) (pid p) p) (outb s1) (pers s1) (banned s1) (groups s1) (cincr (ccount s1) h), true)
-      | Persistent =>
-        (mkSt (inb s1) (outb s1) (aset (pers s1) (pid p) p) (banned s1) (cincr (groups s1) (group p)) (ccount s1), true)
-      | Outbound =>
-        (mkSt (inb s1) (aset (outb s1) (pid p) p) (pers s1) (banned s1) (cincr (groups s1) (group p)) (cincr (ccount s1) h), true)
-      end
-  end.
+    | Some e => if now <? e then (mark_gone s (pid p), false)
+                else admit_peer c (set_banned s (adel (banned s) h)) p
+    | None => admit_peer c s p
+    end.
 
 (* handleDonePeerMsg (the bookkeeping part) *)
 Definition done_peer (s : st) (p : peer) : st :=
   match pkind p with
   | Persistent =>
     match aget (pers s) (pid p) with
-    | Some _ => mkSt (inb s) (outb s) (adel (pers s) (pid p)) (banned s) (cdecr (groups s) (group p)) (ccount s)
+    | Some _ => mkSt (inb s) (outb s) (adel (pers s) (pid p)) (banned s) (cdecr (groups s) (group p)) (ccount s) (gone s)
     | None => s
     end
   | Inbound =>
     match aget (inb s) (pid p) with
-    | Some _ => mkSt (adel (inb s) (pid p)) (outb s) (pers s) (banned s) (groups s) (cdecr (ccount s) (host p))
+    | Some _ => mkSt (adel (inb s) (pid p)) (outb s) (pers s) (banned s) (groups s) (cdecr (ccount s) (host p)) (gone s)
     | None => s
     end
   | Outbound =>
     match aget (outb s) (pid p) with
-    | Some _ => mkSt (inb s) (adel (outb s) (pid p)) (pers s) (banned s) (cdecr (groups s) (group p)) (cdecr (ccount s) (host p))
+    | Some _ => mkSt (inb s) (adel (outb s) (pid p)) (pers s) (banned s) (cdecr (groups s) (group p)) (cdecr (ccount s) (host p)) (gone s)
     | None => s
     end
   end.
@@ -119,6 +138,7 @@ Definition step (c : cfg) (s : st) (e : ev) : st * bool :=
   | Add p now => add_peer c s p now
   | Done p => (done_peer s p, false)
   | Ban h now => (ban_host c s h now, false)
+  | Disc p => (mark_gone s (pid p), false)
   end.
 
 Definition run (c : cfg) (s : st) (evs : list ev) : st := fold_left (fun s e => fst (step c s e)) evs s.
@@ -164,6 +184,7 @@ Fixpoint mentioned (evs : list ev) : list peer :=
   | Add p _ :: t => p :: mentioned t
   | Done p :: t => p :: mentioned t
   | Ban _ _ :: t => mentioned t
+  | Disc p :: t => p :: mentioned t
   end.
 
 (* well-formed history = what the server can produce: each peer object is delivered to Add at
@@ -173,7 +194,7 @@ Definition wf (evs : list ev) : Prop :=
   forall p q, In p (mentioned evs) -> In q (mentioned evs) -> pid p = pid q -> p = q.
 
 Definition ev_time (e : ev) : option Z :=
-  match e with Add _ t => Some t | Ban _ t => Some t | Done _ => None end.
+  match e with Add _ t => Some t | Ban _ t => Some t | Done _ => None | Disc _ => None end.
 
 (* the clock readings along a history never go backwards *)
 Fixpoint time_mono (lo : Z) (evs : list ev) : Prop :=
@@ -184,6 +205,18 @@ Fixpoint time_mono (lo : Z) (evs : list ev) : Prop :=
               | None => time_mono lo t
               end
   end.
+
+(* the protocol of the reachable alphabet: a Done is only delivered for a peer object that is
+   already disconnected (peerDoneHandler: sp.WaitForDisconnect(); s.donePeers <- sp) *)
+Fixpoint proto (c : cfg) (s : st) (evs : list ev) : Prop :=
+  match evs with
+  | [] => True
+  | e :: t => match e with Done p => zmem (pid p) (gone s) = true | _ => True end
+              /\ proto c (fst (step c s e)) t
+  end.
+
+(* the admission bookkeeping proper (everything but the connected flags) *)
+Definition books (s : st) := (inb s, outb s, pers s, banned s, groups s, ccount s).
 
 (* ---- executable spec oracle, applied to OBSERVED states (implementation output) ---------------
    An observed state lists the admitted pids per map, the non-zero counters and the ban table
@@ -196,8 +229,6 @@ Definition pinfo (peers : list (Z * peer)) (k : Z) : option peer := aget peers k
 
 Definition count_where (peers : list (Z * peer)) (f : peer -> bool) (ids : list Z) : Z :=
   zlen (filter (fun k => match pinfo peers k with Some p => f p | None => false end) ids).
-
-Definition zmem (k : Z) (l : list Z) : bool := existsb (Z.eqb k) l.
 
 (* all hosts / groups that matter for a state: those of known peers plus the keys printed *)
 Definition keys_of (m : list (Z * Z)) := map fst m.
@@ -253,10 +284,9 @@ Definition o_anywhere (o : ost) (k : Z) : bool := zmem k (o_inb o) || zmem k (o_
 
 Definition empty_ost := mkOst 0 [] [] [] [] [] [].
 
-(* the peer object was already delivered to Done (the server only does that after the peer
-   disconnected: peerDoneHandler waits for WaitForDisconnect) *)
-Definition was_done (hist : list ev) (k : Z) : bool :=
-  existsb (fun e => match e with Done q => pid q =? k | _ => false end) hist.
+(* the peer object had already disconnected *)
+Definition was_disc (hist : list ev) (k : Z) : bool :=
+  existsb (fun e => match e with Disc q => pid q =? k | _ => false end) hist.
 
 (* one event of the history with the observed decision and the observed states before/after *)
 Definition check_event (c : cfg) (peers : list (Z * peer)) (hist : list ev) (pre : ost) (e : ev) (d : bool) (post : ost) : verdict :=
@@ -264,8 +294,8 @@ Definition check_event (c : cfg) (peers : list (Z * peer)) (hist : list ev) (pre
   | Add p now =>
     let banned_now := active_ban c hist (host p) now in
     if banned_now && d then VFail 5 (pid p)
-    else if d && was_done hist (pid p) then VFail 10 (pid p)
-    else if negb banned_now && negb d
+    else if d && was_disc hist (pid p) then VFail 10 (pid p)
+    else if negb banned_now && negb d && negb (was_disc hist (pid p))
             && (count_recs (fun q => host q =? host p) (lookup_all peers (o_inb pre ++ o_outb pre)) <? max_per_ip c)
             && (zlen (o_inb pre ++ o_outb pre ++ o_pers pre) <? max_peers c) then VFail 6 (pid p)
     else if negb (Bool.eqb d (o_in post p)) && negb (o_anywhere pre (pid p)) then VFail 7 (pid p)
@@ -273,6 +303,7 @@ Definition check_event (c : cfg) (peers : list (Z * peer)) (hist : list ev) (pre
   | Done p =>
     if o_anywhere post (pid p) then VFail 8 (pid p) else check_state c peers post
   | Ban _ _ => check_state c peers post
+  | Disc _ => check_state c peers post
   end.
 
 Fixpoint check_trace (c : cfg) (peers : list (Z * peer)) (hist : list ev) (pre : ost)
